@@ -6,7 +6,7 @@ set -u
 ID=$1; AWT=$2; PKG=$3; DEMO=$4; PAT=$5; PROP=$6
 export GOFLAGS=-mod=mod GOPROXY=off GOSUMDB=off GOTOOLCHAIN=local
 W=/tmp/seedchk-$ID
-rm -rf $W; git -C /repo worktree prune; git -C /repo worktree add -q --detach $W HEAD || exit 2
+rm -rf $W; git -C /repo worktree remove --force $W 2>/dev/null; git -C /repo worktree prune --expire now; git -C /repo worktree add -q --detach $W HEAD || exit 2
 OUT=/verif/seeded/$ID; mkdir -p $OUT
 cp $AWT/_out/patch.diff $OUT/patch.diff; cp $AWT/_out/$DEMO $OUT/; cp $AWT/_out/notes.md $OUT/notes.md 2>/dev/null
 cd $W
